@@ -21,6 +21,20 @@ ASM_OPS = {
     'calc_kM': lambda it, o: it.call(it.getattr(o, 'calc_kM'), [], dict(silent=True)),
     'get_k0_conn': lambda it, o: it.call(it.getattr(o, 'get_k0_conn'), [], {}),
     'get_k0_conn(finalize=False)': lambda it, o: it.call(it.getattr(o, 'get_k0_conn'), [], dict(finalize=False)),
+    'get_k0_conn(conn=other)': lambda it, o: it.call(it.getattr(o, 'get_k0_conn'), [], dict(conn=other_conn(o))),
+}
+
+
+def other_conn(o):
+    p1, p2 = o.attrs['panels'][:2]
+    return [dict(p1=p1, p2=p2, func='SSxcte', xcte1=real('xcte1_other'), xcte2=real('xcte2_other'))]
+
+
+# changes of the definition between two requests: the second request must give what a fresh object with the new definition gives
+ASM_CHANGES = {
+    'plyt-of-panel-1': lambda o: o.attrs['panels'][0].attrs.__setitem__('plyt', real('plyt_changed')),
+    'laminaprop-of-panel-2': lambda o: o.attrs['panels'][1].attrs.__setitem__('laminaprop', tuple(real(x + '_changed') for x in py_panel.MAT)),
+    'ycte1-of-the-connection': lambda o: o.attrs['conn'][0].__setitem__('ycte1', real('ycte1_changed')),
 }
 
 BAY_OPS = {
@@ -56,11 +70,22 @@ def new_bay(it):
     return bay
 
 
-def run_seq(it, new, ops, seq):
+BAY_CHANGES = {
+    'plyt-of-skin-panel-1': lambda o: o.attrs['panels'][0].attrs.__setitem__('plyt', real('plyt_changed')),
+    'plyt-of-the-stiffener-flange': lambda o: o.attrs['bladestiff2ds'][0].attrs['flange'].attrs.__setitem__('plyt', real('fplyt_changed')),
+    'mu-of-the-bay': lambda o: o.attrs.__setitem__('mu', real('mu_changed')),
+}
+
+
+def run_seq(it, new, ops, seq, change_before_last=None, change_fresh=None):
     def thunk():
         o = new(it)
+        if change_fresh:
+            change_fresh(o)
         r = None
         for k, op in enumerate(seq):
+            if change_before_last and k == len(seq) - 1:
+                change_before_last(o)
             try:
                 r = ops[op](it, o)
             except SymRaise as e:
@@ -97,7 +122,9 @@ def new():
     spb.add_bladestiff2d(ys=0.3, bf=0.05, fstack=[0]*8, fplyt=spb.plyt, flaminaprop=lp, mf=4, nf=4)
     return spb
 def req(o, op):
-    if op.startswith('get_k0_conn'):
+    if op == 'get_k0_conn(conn=other)':
+        r = o.get_k0_conn(conn=[dict(p1=o.panels[0], p2=o.panels[1], func='SSxcte', xcte1=1., xcte2=0.)])
+    elif op.startswith('get_k0_conn'):
         r = o.get_k0_conn(finalize=('False' not in op))
     elif op == 'get_size':
         return np.array([o.get_size()])
@@ -152,7 +179,52 @@ def check_kind(led, kind, label, new, ops):
         else:
             led.fail(name, label + b.split('(')[0], {'after %s' % a: [str(x)[:400] for x in got], 'alone': [str(x)[:400] for x in alone[b]]},
                      signature='order:%s,%s' % (a, b), replay=replay_order(kind, a, b))
+    if True:
+        changes, cops = (ASM_CHANGES, ('calc_k0', 'get_k0_conn', 'calc_kM')) if kind == 'assembly' else (BAY_CHANGES, ('calc_k0', 'calc_kM'))
+        for (cn, ch), op in itertools.product(sorted(changes.items()), cops):
+            got = run_seq(it, new, ops, [op, op], change_before_last=ch)
+            want = run_seq(it, new, ops, [op], change_fresh=ch)
+            name = '%s%s/follows-a-change-of-%s' % (label, op, cn)
+            if got == want:
+                led.ok(name, label + op)
+            else:
+                led.fail(name, label + op, {'second request after the change': [str(x)[:400] for x in got], 'fresh object with the new definition': [str(x)[:400] for x in want]},
+                         signature='stale:%s:%s' % (op, cn), replay=replay_change(op, cn) if kind == 'assembly' else None)
     led.solver_time('z3-feasibility', it.solver_time)
+
+
+def replay_change(op, change):
+    from ..pyreplay import run_real
+    script = '''
+import numpy as np
+from compmech.panel import Panel
+from compmech.panel.assembly import PanelAssembly
+lp = (142.5e9, 8.7e9, 0.28, 5.1e9, 5.1e9, 5.1e9)
+def new():
+    kw = dict(a=1., b=0.5, stack=[0, 90, 90, 0], plyt=1.25e-4, laminaprop=lp, mu=1.3e3, m=4, n=4)
+    p1, p2 = Panel(**kw), Panel(**kw)
+    return PanelAssembly([p1, p2], [dict(p1=p1, p2=p2, func='SSycte', ycte1=0.5, ycte2=0.)])
+def change(o):
+    c = payload['change']
+    if c == 'plyt-of-panel-1':
+        o.panels[0].plyt = 2.5e-4
+    elif c == 'laminaprop-of-panel-2':
+        o.panels[1].laminaprop = tuple(x*(1. if i == 2 else 2.) for i, x in enumerate(lp))
+    else:
+        o.conn[0]['ycte1'] = 0.25
+def req(o):
+    op = payload['op']
+    r = o.get_k0_conn() if op == 'get_k0_conn' else getattr(o, op)(silent=True)
+    return np.asarray(r.todense())
+o = new(); req(o); change(o); second = req(o)
+f = new(); change(f); fresh = req(f)
+out = {'max_abs_fresh': float(abs(fresh).max()), 'max_abs_difference': float(abs(fresh - second).max())}
+'''
+    pay = dict(op=op, change=change)
+    r = run_real(script, pay)
+    d = r.get('max_abs_difference')
+    return {'reproduced': bool(r.get('raised') or (isinstance(d, float) and d > 1e-9 * max(r.get('max_abs_fresh', 0), 1e-300))), 'input': pay, 'result': r,
+            'real_function': 'PanelAssembly.' + op}
 
 
 def check(led):
